@@ -1587,8 +1587,8 @@ def resolveFramer(framer, who='', desc='framer', contexts=None,
         if not isinstance(framer, Framer):
             raise excepting.ResolveError("ResolveError: Bad {0} link name, tasker"
                                          " not framer".format(desc),
-                                         self.name,
-                                         aux.name,
+                                         framer.name,
+                                         who,
                                          human,
                                          count)
         if contexts and framer.schedule not in contexts:
